@@ -49,6 +49,27 @@ MUTANTS = {
                                   "_fit considers all units even if the reference unit is SI-prefixed"),
     "C07-mebibit-digits": (["C07"], [("src/datavolume.rs", '#[unit(Mebibit, "Mib", 131072, "1048576·b")]', '#[unit(Mebibit, "Mib", 131027, "1048576·b")]')], "Mebibit = 131027 B"),
     "C07-are-prefix": (["C07"], [("src/area.rs", '#[unit(Are, "a", HECTO, 100, "100·m²")]', '#[unit(Are, "a", DECA, 100, "100·m²")]')], "Are reports prefix DECA"),
+    "C07-long-literals-clamped-to-18-digits": (["C07"], [(H, """            let unit_scale: &syn::Lit = unit.scale.as_ref().unwrap();
+            code = quote!(""", """            let unit_scale: &syn::Lit = &clamp_scale_lit(unit.scale.as_ref().unwrap());
+            code = quote!("""), (H, """fn codegen_fn_scale(units: &Vec<UnitDef>) -> TokenStream {""", """/// `Dec!` accepts at most 18 fractional digits: shorten longer float literals.
+fn clamp_scale_lit(lit: &syn::Lit) -> syn::Lit {
+    if let syn::Lit::Float(f) = lit {
+        let digits = f.base10_digits().to_lowercase();
+        let (mant, exp) = match digits.split_once('e') {
+            Some((m, e)) => (m.to_owned(), e.parse::<i32>().unwrap_or(0)),
+            None => (digits.clone(), 0),
+        };
+        let n_frac = mant.split_once('.').map(|(_, fr)| fr.len() as i32).unwrap_or(0) - exp;
+        if n_frac > 18 {
+            let v: f64 = f.base10_parse().unwrap();
+            return syn::Lit::Float(syn::LitFloat::new(&format!("{:.18}", v), f.span()));
+        }
+    }
+    lit.clone()
+}
+
+fn codegen_fn_scale(units: &Vec<UnitDef>) -> TokenStream {""")],
+                                               "recreation of a sub-agent's round-2 seed whose files were lost: scale literals with more than 18 fractional digits are re-emitted with 18 (a 'fix' for building the astronomical crate with fpdec) - eight astronomical scales lose up to 4e-11 relative under f64"),
     "C08-one-times-amount": (["C08"], [("src/lib.rs", "    fn mul(self, rhs: AmountT) -> Self::Output {\n        rhs\n    }", "    fn mul(self, rhs: AmountT) -> Self::Output {\n        if rhs == AMNT_ZERO {\n            return AMNT_ZERO;\n        }\n        rhs\n    }")],
                              "ONE * amount normalises negative zero to zero"),
     "CONTROL-scalar-mul-commuted": ([], [(H, "                Self::Output::new(self * rhs.amount(), rhs.unit())", "                Self::Output::new(rhs.amount() * self, rhs.unit())")],
